@@ -3,6 +3,7 @@ package main
 import (
 	"fmt"
 	"go/types"
+	"math"
 	"math/big"
 	"strconv"
 	"strings"
@@ -313,6 +314,82 @@ func registerStd(e *Engine) {
 	e.reg("runtime/debug.Stack", func(fr *frame, args []value) value { return stringCells("<stack>") })
 	e.reg("runtime/debug.PrintStack", nop)
 
+	// math on concrete floats
+	f1 := func(name string, f func(float64) float64) {
+		e.reg("math."+name, func(fr *frame, args []value) value {
+			x, ok := args[0].(float64)
+			if !ok {
+				abort("unmodelled", "math.%s of symbolic float", name)
+			}
+			return f(x)
+		})
+	}
+	f1("Floor", math.Floor)
+	f1("Ceil", math.Ceil)
+	f1("Abs", math.Abs)
+	f1("Sqrt", math.Sqrt)
+	f1("Round", math.Round)
+	f1("Trunc", math.Trunc)
+	e.reg("math.Float64bits", func(fr *frame, args []value) value {
+		x, ok := args[0].(float64)
+		if !ok {
+			abort("unmodelled", "math.Float64bits of symbolic float")
+		}
+		return math.Float64bits(x)
+	})
+	e.reg("math.Float64frombits", func(fr *frame, args []value) value {
+		x, ok := args[0].(uint64)
+		if !ok {
+			abort("unmodelled", "math.Float64frombits symbolic")
+		}
+		return math.Float64frombits(x)
+	})
+	e.reg("math.IsNaN", func(fr *frame, args []value) value {
+		x, ok := args[0].(float64)
+		if !ok {
+			return false // the real-arithmetic model has no NaN
+		}
+		return math.IsNaN(x)
+	})
+	e.reg("math.IsInf", func(fr *frame, args []value) value {
+		x, ok := args[0].(float64)
+		if !ok {
+			return false
+		}
+		return math.IsInf(x, int(args[1].(int64)))
+	})
+	e.reg("math.Signbit", func(fr *frame, args []value) value {
+		x, ok := args[0].(float64)
+		if !ok {
+			t, _ := toTerm(args[0])
+			return simp(Op("<", SBool, t, RealConst("0.0")))
+		}
+		return math.Signbit(x)
+	})
+	e.reg("math.Pow", func(fr *frame, args []value) value {
+		x, ok1 := args[0].(float64)
+		y, ok2 := args[1].(float64)
+		if !ok1 || !ok2 {
+			abort("unmodelled", "math.Pow symbolic")
+		}
+		return math.Pow(x, y)
+	})
+	e.reg("math.Max", func(fr *frame, args []value) value {
+		x, ok1 := args[0].(float64)
+		y, ok2 := args[1].(float64)
+		if !ok1 || !ok2 {
+			abort("unmodelled", "math.Max symbolic")
+		}
+		return math.Max(x, y)
+	})
+	e.reg("math.Min", func(fr *frame, args []value) value {
+		x, ok1 := args[0].(float64)
+		y, ok2 := args[1].(float64)
+		if !ok1 || !ok2 {
+			abort("unmodelled", "math.Min symbolic")
+		}
+		return math.Min(x, y)
+	})
 	// math/bits used by a few helpers
 	e.reg("math/bits.Len64", func(fr *frame, args []value) value {
 		if x, ok := args[0].(uint64); ok {
